@@ -106,12 +106,13 @@ SPECS["C08"] = {
 }
 
 SPECS["C14"] = {
-    "parts": [{"engine": "kani", "group": "enc", "select": r"^c14_", "mem_gb": 10, "timeout": {"quick": 1500, "thorough": 2400}}],
-    "functions": ["dicom_core::header::<Tag as FromStr>::from_str, parse_tag_part", "<Tag as Display>::fmt (real core::fmt into a fixed sink)"],
+    "parts": [{"engine": "kani", "group": "enc", "select": r"^c14_", "mem_gb": 10, "timeout": {"quick": 1500, "thorough": 2400}}, {"engine": "m", "module": "c14kw"}],
+    "functions": ["dicom_core::header::<Tag as FromStr>::from_str, parse_tag_part", "<Tag as Display>::fmt (real core::fmt into a fixed sink)", "dicom_core::dictionary::DataDictionary::parse_tag (provided method, Engine M)"],
     "bounds": "parsing: EVERY valid UTF-8 string of byte length 0, 7, 8, 9, 10, 11, 12 (all bytes symbolic); printing: all 2^32 tags, canonical form compared byte by byte, "
-              "print->parse identity for the three forms incl. lower case",
-    "outside": "strings longer than 12 bytes (rejected by the length match before any indexing); attribute selectors and dictionary keywords (text syntax of selectors: not encoded yet)",
-    "assumptions": ["oracle: independent recogniser of the three forms in kani/enc/src/c14.rs"],
+              "print->parse identity for the three forms incl. lower case; keyword clause (Engine M): parse_tag on every text of 4, 5, 8, 9 (thorough 4..11) letters / digits with the dictionary "
+              "knowing it or not (solver choice) and any tag behind it",
+    "outside": "strings longer than 12 bytes (rejected by the length match before any indexing); the selector syntax around the keys (items, dots); which keywords the standard dictionary actually holds (C15)",
+    "assumptions": ["oracle: independent recogniser of the three forms in kani/enc/src/c14.rs", "keyword clause: by_name is a contract (known / unknown, symbolic tag); str::{is_char_boundary, split_at, chars}, u16::from_str_radix over symbolic ASCII characters are contracts"],
 }
 
 SPECS["C26"] = {
